@@ -1148,7 +1148,14 @@ class C23:
                 ticks = {v["tick"] for v in alive}
                 acc = {v["k"] for v in alive}
                 if oid[0] == "fs":
-                    acc |= {v["k"] for v in w.store.versions(oid) if v["tick"] in ticks and v["born"] <= ret}
+                    vs = w.store.versions(oid)
+                    acc |= {v["k"] for v in vs if v["tick"] in ticks and v["born"] <= ret}
+                    # Under threads a load can be pre-empted between its stat() and its read(): the text of
+                    # version k is then paired with the mtime of an EARLIER version j.  That heals itself at
+                    # the next request - unless the file's mtime later returns to exactly that value (an edit
+                    # that moves the mtime backwards), which no mtime comparison can tell apart.  So version k
+                    # is acceptable if some version j <= k carries the mtime of a currently acceptable one.
+                    acc |= {v["k"] for v in vs if v["born"] <= ret and any(u["tick"] in ticks for u in vs[:v["k"] + 1])}
                 if ver not in acc:
                     add("freshness", "freshness:stale:%s:thread:%s" % (oid[0], "strict" if _strict(oid) else "relaxed"),
                         {"op": op, "got_version": ver, "acceptable": sorted(acc), "window": [lo, ret]})
